@@ -7,10 +7,18 @@ from . import loader
 
 VERIF = os.path.dirname(os.path.dirname(os.path.abspath(__file__)))
 
+def _copy_repo(base):
+    """copy the working tree's pytenet/ under the lock that the seeded-change detection holds while /repo is patched"""
+    import fcntl
+    with open('/tmp/vt_repo.lock', 'w') as lock:
+        fcntl.flock(lock, fcntl.LOCK_EX)
+        shutil.copytree(os.path.join('/repo', 'pytenet'), os.path.join(base, 'pytenet'), ignore=shutil.ignore_patterns('__pycache__'))
+
+
 def run_mutant(m, props=None, tier='quick'):
     base = tempfile.mkdtemp(prefix='vtmut_', dir=os.environ.get('TMPDIR', '/dev/shm'))
     try:
-        shutil.copytree(os.path.join('/repo', 'pytenet'), os.path.join(base, 'pytenet'), ignore=shutil.ignore_patterns('__pycache__'))
+        _copy_repo(base)
         p = os.path.join(base, 'pytenet', m['file'])
         s = open(p).read()
         if s.count(m['old']) != 1:
@@ -33,7 +41,7 @@ def run_seeded(name, props=None, tier='quick'):
     meta = json.load(open(os.path.join(d, 'meta.json')))
     base = tempfile.mkdtemp(prefix='vtmut_', dir=os.environ.get('TMPDIR', '/dev/shm'))
     try:
-        shutil.copytree(os.path.join('/repo', 'pytenet'), os.path.join(base, 'pytenet'), ignore=shutil.ignore_patterns('__pycache__'))
+        _copy_repo(base)
         r = subprocess.run(['patch', '-p1', '-s', '-d', base, '-i', os.path.join(d, 'patch.diff')], capture_output=True, text=True)
         if r.returncode != 0:
             return dict(id=name, error='patch does not apply: ' + (r.stdout + r.stderr)[-200:])
